@@ -398,7 +398,7 @@ class Layer(BaseObject):
         for glyphName, glyph in self._glyphs.items():
             if glyphName in self._scheduledForDeletion:
                 continue
-            if len(glyph):
+            if _hasOutlineData(glyph):
                 found.append(glyphName)
         # scan glyphs that have not been loaded
         if self._glyphSet is not None:
@@ -940,6 +940,16 @@ class _FetchControlPointBoundsDataParser(_BaseParser):
             raise _DoneParsing
         super(_FetchControlPointBoundsDataParser, self).endElementHandler(name)
 
+
+def _hasOutlineData(glyph):
+    # the test that _fetchHasOutlineData applies to a GLIF,
+    # applied to a glyph object: the answer must not depend
+    # on whether the glyph has been loaded
+    for contour in glyph:
+        for point in contour:
+            if point.segmentType not in ("move", "offcurve", None):
+                return True
+    return False
 
 def _fetchHasOutlineData(glif):
     parser = _FetchHasOutlineDataParser()
